@@ -12,6 +12,11 @@
     call f args              a call of polliwog callable `f`; `args[i]` = the names the i-th parameter may alias
     unknown                  a statement the translator could not read (counts as writing everything)
 
+  The last parameter of every `Fn` is a pseudo-parameter standing for *the state that outlives the call*: module-level
+  and class-level names the body uses without binding them, names declared `global` / `nonlocal`, and — for a function
+  returned by a factory — the factory's locals (its closure).  Every call passes it on to the callee.  A write
+  through it is a memo, a cache or a counter: what makes a second call with the same arguments answer differently.
+
   `must = true` only at the top level of the body (the statement executes whenever control reaches it, so the
   binding is *replaced*); below `if` / `for` / `while` / `try` the binding is only *added to*.
 
